@@ -151,6 +151,8 @@ class MemSocket:
     def getpeername(self):
         if self.closed:
             raise OSError(errno.EBADF, "Bad file descriptor (mem)")
+        if self.reset:
+            raise OSError(errno.ENOTCONN, "Transport endpoint is not connected (mem)")     # as on Linux once the peer's RST has arrived
         return self.peeraddr
 
     def getsockname(self):
